@@ -60,7 +60,7 @@ func tableConcat(L *LState) int {
 			return 1
 		}
 	}
-	i = intMax(intMin(i, tbl.Len()), 1)
+	i = intMax(i, 1)
 	j = intMin(intMin(j, tbl.Len()), tbl.Len())
 	if i > j {
 		L.Push(emptyLString)
